@@ -22,7 +22,7 @@ const MONO_INDEPENDENT: [&str; 10] = ["pi", "theta", "s", "d-tajima", "d-fu-li",
 const SWAP_INVARIANT: [&str; 6] = ["f2", "fst", "pi-xy", "king", "r0", "r1"];
 const SCALE_INVARIANT: [&str; 7] = ["f2", "f3", "f4", "fst", "king", "r0", "r1"];
 const SCALE_LINEAR: [&str; 5] = ["sum", "s", "pi", "pi-xy", "theta"];
-const SCALES: [f64; 5] = [2.0, 0.5, 3.0, 1e-3, 1e6];
+const SCALES: [f64; 8] = [2.0, 0.5, 3.0, 1e-3, 1e6, 1e10, 1e15, 1e-12];
 
 fn stat(name: &str, x: &RefArray) -> Result<f64, String> {
     let scs = scs_from_ref(x);
@@ -290,7 +290,7 @@ fn eval_cli(x: &RefArray, scratch: &Scratch) -> (u64, Vec<Viol>) {
         }
     }
     // scaling through the mixed list
-    for c in [2.0, 0.5, 1000.0] {
+    for c in [2.0, 0.5, 1000.0, 1e12] {
         let y = RefArray { shape: shape.clone(), data: x.data.iter().map(|v| v * c).collect() };
         n += all.len() as u64;
         match cli_stats(&y, &all, false, scratch) {
@@ -318,7 +318,7 @@ fn eval_cli(x: &RefArray, scratch: &Scratch) -> (u64, Vec<Viol>) {
 
 pub fn run(tier: Tier) -> i32 {
     let mut rep = Report::new("C14", tier, "exploration");
-    rep.rule = "relations between two evaluations of the implementation, each on every (shape, value set): f3/f4 = linear combinations of f2 of the two-population marginals (real marginalize + normalize); stat(fold_0 x) = stat(x) for the 12 listed statistics; independence of the two monomorphic cells (values {0, 1, 1000, 1e17, 1e150}: also values next to which the polymorphic mass vanishes in floating point) for all but sum/f2/f3/f4; population swap for f2, Fst, pi_xy, KING, R0, R1; scaling by c in {2, 1/2, 3, 1e-3, 1e6}. Shapes: 1-D n+1 = 3..12, 2-D {2..6}^2, 3-D {2..4}^3, 4-D {2,3}^4, always including unequal lengths; value sets: every basis spectrum, every two-cell spectrum (small shapes), a ramp and a powers-of-two spectrum. L2: `sfs stat` with all admissible statistics in one -s list vs each alone, `sfs fold --fill zero | sfs stat`, scaled inputs. Non-trivial = unequal axis lengths or a non-basis spectrum.".into();
+    rep.rule = "relations between two evaluations of the implementation, each on every (shape, value set): f3/f4 = linear combinations of f2 of the two-population marginals (real marginalize + normalize); stat(fold_0 x) = stat(x) for the 12 listed statistics; independence of the two monomorphic cells (values {0, 1, 1000, 1e17, 1e150}: also values next to which the polymorphic mass vanishes in floating point) for all but sum/f2/f3/f4; population swap for f2, Fst, pi_xy, KING, R0, R1; scaling by c in {2, 1/2, 3, 1e-3, 1e6, 1e10, 1e15, 1e-12} (totals beyond 1e9 and 2^53 and far below one). Shapes: 1-D n+1 = 3..12, 2-D {2..6}^2, 3-D {2..4}^3, 4-D {2,3}^4, always including unequal lengths, plus seven spectra of 1 030 .. 77 520 entries (1-D beyond 1 024, 70x65, 19x17x15, 45x41x39, 19x17x16x15); value sets: every basis spectrum, every two-cell spectrum (small shapes), a ramp and a powers-of-two spectrum. L2: `sfs stat` with all admissible statistics in one -s list vs each alone, `sfs fold --fill zero | sfs stat`, scaled inputs. Non-trivial = unequal axis lengths or a non-basis spectrum.".into();
     let mut shp: Vec<Vec<usize>> = (3..=12).map(|n| vec![n]).collect();
     shp.extend(shapes(2, 2, tier.pick(5, 6), usize::MAX).into_iter().filter(|s| s.len() == 2));
     shp.extend(shapes(3, 2, tier.pick(3, 4), usize::MAX).into_iter().filter(|s| s.len() == 3));
@@ -328,6 +328,11 @@ pub fn run(tier: Tier) -> i32 {
         let cells: usize = s.iter().product();
         let pairs = cells <= tier.pick(12, 20);
         jobs.extend(value_sets(s, pairs));
+    }
+    // scale: spectra beyond 1 024, 4 096 and 65 536 entries (a ramp-like filling with mass in the last entries)
+    for s in [vec![1030usize], vec![1601], vec![2049], vec![70, 65], vec![19, 17, 15], vec![45, 41, 39], vec![19, 17, 16, 15]] {
+        let cells: usize = s.iter().product();
+        jobs.push(("scale-ramp".to_string(), RefArray::from_fn(&s, |f, _| if f + 5 >= cells { 900.0 } else { ((f * 13) % 31 + 1) as f64 })));
     }
     let res = par_map(jobs.len(), |i| check_spectrum(&jobs[i].0, &jobs[i].1));
     let mut ev = 0u64;
